@@ -690,6 +690,10 @@ func classifyOne(p *Prog, a *Org) Src {
 		}
 	case "slice":
 		// slice of another string: report the base
+		// the per-line object is named by its type (see "field" above)
+		if b := classifyOne(p, a.Sub[0]); b.Kind == "field" {
+			return Src{Kind: "sliceof", A: b.A}
+		}
 		return Src{Kind: "sliceof", A: a.Sub[0].String()}
 	}
 	return Src{Kind: "other", A: a.String()}
